@@ -52,7 +52,12 @@ def strip_log(stdout):
 
 
 def csv_col(data, col):
-    return [ln.split(';')[col] for ln in data.decode().splitlines() if ln]
+    # tolerant: the file may hold anything (that is what is being checked)
+    out = []
+    for ln in data.decode('utf-8', 'replace').splitlines():
+        f = ln.split(';')
+        out.append(f[col] if col < len(f) else '?')
+    return out
 
 
 def processed_upto(stdout):
